@@ -200,7 +200,13 @@ class PauliStringPhasor(gate_operation.GateOperation):
         new_pauli_string: ps.PauliString = self.pauli_string.conjugated_by(clifford)
         pp = self.exponent_pos
         pn = self.exponent_neg
-        return PauliStringPhasor(new_pauli_string, exponent_pos=pp, exponent_neg=pn)
+        # A phasor given explicit qubits beyond those of its Pauli string (identity padding) keeps
+        # acting on all of them.
+        qubits = None
+        if len(self.qubits) > len(self.pauli_string.qubits):
+            padding = tuple(q for q in self.qubits if q not in new_pauli_string.qubits)
+            qubits = (*new_pauli_string.qubits, *padding)
+        return PauliStringPhasor(new_pauli_string, qubits=qubits, exponent_pos=pp, exponent_neg=pn)
 
     @deprecated(deadline="v2.0", fix="Use conjugated_by() instead.")
     def pass_operations_over(
